@@ -119,7 +119,12 @@ def run(cx: Cx):
         # receiver must be the element of this iteration
         sys_t = s0.recv
         # only first-iteration instances are compared (later iterations carry primed loop variables)
-        first = [s for s in sites if s.iter_ev.data.get('k') == 1]
+        def _before_any_clock_write(site):
+            i = site.path.events.index(site.ev)
+            return not any(e.kind == 'store' and e.data.get('loc') == TLOC for e in site.path.events[:i])
+        first = [s for s in sites if s.iter_ev.data.get('k') == 1 and _before_any_clock_write(s)]
+        if not first:
+            first = [s for s in sites if s.iter_ev.data.get('k') == 1][:1]
         G = guard_of_sites(cx, first)
         G2, aside = set_aside(cx, G, sys_t, self_n)
         E = window_predicate(sys_t, t)
@@ -224,7 +229,7 @@ def run(cx: Cx):
     nname = mex.params[1] if len(mex.params) > 1 else 'n'
     n = Sym(nname)
     type_ok_atoms = [AEq(App('type', (n,)), Sym('int')), AIsInst(n, Sym('int'))]
-    mps = cx.walker.paths(mex, WalkOptions(unroll=2))
+    mps = cx.walker.paths(mex, WalkOptions(unroll=2, callee_raises=False))
     succ_conds = []
     for p in mps:
         calls = [e for e in p.events if e.kind == 'call' and any(tg.qualname == fn.qualname for tg in e.data.get('targets', []))]
@@ -276,7 +281,10 @@ def run(cx: Cx):
                          where=cx.where(mex, calls[0].line), path=p.lines())
             continue
     if succ_conds:
-        S = f_or(*succ_conds)
+        from sa.terms import drop_literals, term_symbols
+        # only the literals that speak about n decide acceptance; everything else on these paths (scheduler internals
+        # when a helper was merged into the loop) is another clause's business
+        S = f_or(*[drop_literals(c, lambda a: n not in term_symbols(a)) for c in succ_conds])
         ok = False
         tried = []
         for ta in type_ok_atoms:
